@@ -196,6 +196,102 @@ def gen(ck):
     return cases
 
 
+def nested_io_fail():
+    """File I/O re-entered while a load or save with another charset is in progress (a track object that loads its events
+    from another file when iterated, an output file that saves a second file when written to, an input file that opens a
+    second file when read) and an attribute reassigned after construction: the charset of the OUTER call stays in force
+    for the whole of it, what is written / read equals what the plain objects give, and the default is back afterwards."""
+    import io
+    import mido
+    from mido.midifiles import meta as M
+    other = io.BytesIO()
+    mido.MidiFile(tracks=[mido.MidiTrack([mido.MetaMessage('text', text='caf\xe9')])]).save(file=other)
+    other_bytes = other.getvalue()
+    texts = ['M\xe4dchen', 'Caf\xe9 No\xebl', '\u20ac']
+
+    def events():
+        return [mido.MetaMessage('lyrics', text=t, time=i) for i, t in enumerate(texts)] + [mido.Message('note_on', note=5, time=1)]
+
+    def save(mid):
+        b = io.BytesIO()
+        mid.save(file=b)
+        return b.getvalue()
+    for cs in ('utf-8', 'utf-16-le', 'cp1252'):
+        try:
+            plain = mido.MidiFile(charset=cs, tracks=[mido.MidiTrack(events()), mido.MidiTrack(events())])
+            want = save(plain)
+        except Exception:
+            continue        # a charset that cannot store these texts: nothing to compare
+
+        class LazyTrack(mido.MidiTrack):
+            def __iter__(self):
+                mido.MidiFile(file=io.BytesIO(other_bytes))              # a load with the default charset, nested
+                mido.MidiFile(tracks=[mido.MidiTrack(events())], charset='utf-8').save(file=io.BytesIO())
+                return super().__iter__()
+        lazy = mido.MidiFile(charset=cs, tracks=[LazyTrack(events()), LazyTrack(events())])
+        try:
+            got = save(lazy)
+        except Exception as e:
+            return f'saving ({cs}) a file whose track object loads another file while it is iterated raised {type(e).__name__}: {e}'
+        if got != want:
+            return (f'a file saved with charset {cs} whose track object loads another file (default charset) while it is iterated differs '
+                    f'from the same events in plain tracks: the charset did not stay in force for the whole call')
+        if M._charset != 'latin1' or probe_state() != probe_state():
+            return f'after nested file operations the process-wide charset is {M._charset!r}'
+
+        class ReSaving(io.BytesIO):
+            n = 0
+
+            def write(self, b):
+                ReSaving.n += 1
+                if ReSaving.n == 3:
+                    mido.MidiFile(tracks=[mido.MidiTrack(events()[:1])], charset='latin1' if cs != 'cp1252' else 'utf-8').save(file=io.BytesIO())
+                return super().write(b)
+        ReSaving.n = 0
+        out = ReSaving()
+        try:
+            plain.save(file=out)
+        except Exception as e:
+            return f'saving ({cs}) into a file object that saves another file when written to raised {type(e).__name__}: {e}'
+        if out.getvalue() != want:
+            return f'a save with charset {cs} into a file object that itself saves another file (other charset) when written to wrote other bytes'
+
+        class Opening(io.BytesIO):
+            n = 0
+
+            def read(self, *a):
+                Opening.n += 1
+                if Opening.n in (2, 5):
+                    mido.MidiFile(file=io.BytesIO(other_bytes))
+                return super().read(*a)
+        Opening.n = 0
+        try:
+            back = mido.MidiFile(file=Opening(want), charset=cs)
+            got_texts = [m.text for m in back.tracks[0] if m.type == 'lyrics']
+        except Exception as e:
+            return f'loading ({cs}) from a file object that opens another MIDI file when read raised {type(e).__name__}: {e}'
+        if got_texts != texts:
+            return f'loading with charset {cs} from a file object that opens another MIDI file when read gives {got_texts!r}, the file holds {texts!r}'
+        # the public attribute decides, at the time of the call
+        mid2 = mido.MidiFile(tracks=[mido.MidiTrack(events())])
+        mid2.charset = cs
+        try:
+            if save(mid2) != save(mido.MidiFile(charset=cs, tracks=[mido.MidiTrack(events())])):
+                return f'MidiFile(); mid.charset = {cs!r}; save() writes other bytes than MidiFile(charset={cs!r}).save()'
+        except Exception as e:
+            return f'MidiFile(); mid.charset = {cs!r}; save() raised {type(e).__name__}: {e}'
+        loaded = mido.MidiFile(file=io.BytesIO(want), charset=cs)
+        loaded.charset = 'utf-8'
+        try:
+            if save(loaded) != save(mido.MidiFile(charset='utf-8', tracks=[mido.MidiTrack(events()), mido.MidiTrack(events())])):
+                return f'a file loaded with {cs}, then mid.charset = "utf-8", saves other bytes than a utf-8 file with the same events'
+        except Exception as e:
+            return f'load ({cs}); mid.charset = "utf-8"; save() raised {type(e).__name__}: {e}'
+        if M._charset != 'latin1':
+            return f'after these operations the process-wide charset is {M._charset!r}'
+    return None
+
+
 def run(ck):
     ck.prepare_lean()
     ck.run_corpus(oracle)
@@ -219,6 +315,11 @@ def run(ck):
     ck.sample({'charset': cases[5][0], 'texts': list(cases[5][1]), 'fault': cases[5][2]})
     ck.sample({'charset': cases[-3][0], 'texts': list(cases[-3][1]), 'fault': cases[-3][2]})
     ck.compare('charset.load', reqs, impl, ck.driver.run(reqs))
+    ck.evaluations += 1
+    ck.count('nested_io')
+    f = nested_io_fail()
+    if f:
+        ck.oracle_fail({'nested_io': True}, f)
     envprobe.check(ck, ['meta', 'file', 'load'])
     return ck.finish(RULE, assumptions=['the codecs themselves are CPython\'s; the model implements latin1, ascii and strict UTF-8 '
                                         '(round trip proved); the other codecs are exercised through the oracle only',
@@ -226,6 +327,8 @@ def run(ck):
 
 
 def oracle(case):
+    if 'nested_io' in case:
+        return nested_io_fail()
     if 'environment' in case:
         return envprobe.oracle(case)
     return impl_case((case['charset'], tuple(case['texts']), tuple(case['fault']) if case['fault'] else None))[1]
